@@ -7,6 +7,15 @@ EXTRA = {  # other checks that also see a change
  "C01-m2": ["C02", "C03"], "C03-m2": ["C01"], "C07-m2": ["C15"], "C10-m2": ["C12"], "C12-m1": ["C10"], "C19-m1": ["C04"],
 }
 STRENGTHENED = {
+ "C04-m6": "missed at first: bulk insertions were always materialised vectors; C04 now also calls push_many with exact-size iterators that only *claim* up to usize::MAX items and must be refused from the claimed length alone",
+ "C05-m6": "missed at first, in the worst way: the change makes the translation of larger genomes blow up, and the monitor's process died (allocation failure) before it could report the structural violations it had already seen; C05 now runs as a supervised child under an address-space limit with a CPU-time hang watchdog, and a death or hang while a genome is being translated is reported with the genomes in flight",
+ "C07-m5": "missed at first: EcIndividual populations always had two results each; they now mix result vectors of different lengths",
+ "C09-m5": "missed at first: populations were Vec / VecDeque, whose size never changes; C09 now also steps a set-like population (BTreeSet of keyed children) in which equal children collapse, so the next step must make exactly as many children as the population has *now*",
+ "C11-m5": "missed at first: Plushy parents consisted of distinct literals only (a payload-free Close cannot be matched to one parent position); parents now contain up to four Close genes and the child is accepted if any order-preserving assignment of its Close genes to parent Close genes makes it legal",
+ "C16-m5": "missed at first: the confusable-name pool had no pair differing only in case; it now has (rate, Rate) and (FLAG, flag)",
+ "C17-m5": "missed at first: the scripted child maker only drew 32-bit words; probes of all five traits now draw through next_u32, next_u64, fill_bytes of 1 / 5 / 11 bytes and random_bool",
+ "C17-m6": "missed at first: no wrapped implementation drew through fill_bytes (see C17-m5)",
+ "C19-m6": "missed at first: every fixture wrote all options of a stack in one attribute; the Odd fixture now declares fields in an unusual order and spreads the options over several #[stack(..)] attributes with the instruction name first",
  "C06-m3": "missed by the version the change was written against: C06 only used populations of 0..9 members, the panic needs a tournament of >= 9 on >= 81 individuals; C06 now has a large-population phase (10..4099 members, tournament sizes around 8/16/32/64, sqrt(n), n/2, n-1, n, n+1)",
  "C12-m3": "missed at first: C12 built its gene generators through into_gene_generator / into_gene_generator_with_close_probability only; it now drives all six public constructors (owning and borrowing, explicit and default close probability)",
  "C13-m4": "missed at first: every combination was built completely before its first selection; C13 now also runs staged histories (select, extend with another member, select again) on DynWeighted lists and with_item_and_weight chains, each stage judged against the weights it has at that moment",
